@@ -468,10 +468,13 @@ type dRes struct {
 	r *s3c.Resp
 }
 
-func laneDelete(c *ev.Ctx, noOTmp bool) {
+func laneDelete(c *ev.Ctx, noOTmp bool, versioned bool) {
 	cfgName := "otmpfile"
 	if noOTmp {
 		cfgName = "named-temp"
+	}
+	if versioned {
+		cfgName += "+versioned"
 	}
 	ctl, err := gate.New(gw.Scratch())
 	if err != nil {
@@ -479,7 +482,7 @@ func laneDelete(c *ev.Ctx, noOTmp bool) {
 		return
 	}
 	defer ctl.Close()
-	env, err := fx.New("c16d", gw.Config{NoOTmp: noOTmp, Env: ctl.Env("*")}, 2)
+	env, err := fx.New("c16d", gw.Config{NoOTmp: noOTmp, Versioning: versioned, Env: ctl.Env("*")}, 2)
 	if err != nil {
 		c.Inconclusive("gateway start: " + err.Error())
 		return
@@ -489,7 +492,7 @@ func laneDelete(c *ev.Ctx, noOTmp bool) {
 	nb := 0
 	mkBucket := func() (string, bool) {
 		nb++
-		b := fmt.Sprintf("dbk%s%d", map[bool]string{false: "o", true: "n"}[noOTmp], nb)
+		b := fmt.Sprintf("dbk%s%s%d", map[bool]string{false: "o", true: "n"}[noOTmp], map[bool]string{false: "", true: "v"}[versioned], nb)
 		if r := cl[0].CreateBucket(b); !r.OK() {
 			c.Inconclusive("create bucket: " + r.String())
 			return "", false
@@ -497,6 +500,13 @@ func laneDelete(c *ev.Ctx, noOTmp bool) {
 		// make .sgwtmp exist (first object goes through the fallback) and empty the bucket again
 		cl[0].PutObject(b, "warm", []byte("x"))
 		cl[0].DeleteObject(b, "warm")
+		if versioned {
+			// versioning is enabled on the (empty) bucket: uploads that land in a delete's window are archived
+			if r := cl[0].PutBucketVersioning(b, "Enabled"); !r.OK() {
+				c.Inconclusive("enable versioning: " + r.String())
+				return "", false
+			}
+		}
 		return b, true
 	}
 	body := []byte(strings.Repeat("payload-", 500))
@@ -504,7 +514,26 @@ func laneDelete(c *ev.Ctx, noOTmp bool) {
 		name string
 		prep func(b string) func(cl *s3c.Client) *s3c.Resp
 	}
+	var vmu sync.Mutex
+	ackedVersions := map[string][][2]string{} // bucket -> (version id, body)
 	uploads := []op{
+		{"PutObject-twice", func(b string) func(*s3c.Client) *s3c.Resp {
+			return func(c *s3c.Client) *s3c.Resp {
+				var last *s3c.Resp
+				for i := 0; i < 2; i++ {
+					bd := []byte(fmt.Sprintf("version-%d-%s", i, string(body)))
+					last = c.Do(&s3c.Req{Method: "PUT", Path: s3c.ObjPath(b, "dir/obj"), Body: bd, FreshConn: true})
+					if last.OK() {
+						if vid := last.Header.Get("X-Amz-Version-Id"); vid != "" {
+							vmu.Lock()
+							ackedVersions[b] = append(ackedVersions[b], [2]string{vid, string(bd)})
+							vmu.Unlock()
+						}
+					}
+				}
+				return last
+			}
+		}},
 		{"PutObject", func(b string) func(*s3c.Client) *s3c.Resp {
 			return func(c *s3c.Client) *s3c.Resp {
 				return c.Do(&s3c.Req{Method: "PUT", Path: s3c.ObjPath(b, "dir/obj"), Body: body, FreshConn: true})
@@ -556,6 +585,22 @@ func laneDelete(c *ev.Ctx, noOTmp bool) {
 			}
 		} else if ok2(delR) && ok2(upR) {
 			c.Violation(base+":both-acknowledged", "D/"+id, det)
+		}
+		// every version acknowledged while the delete was in flight must still be readable when the bucket exists,
+		// and must not be gone if DeleteBucket failed
+		vmu.Lock()
+		acked := ackedVersions[b]
+		vmu.Unlock()
+		if len(acked) > 0 && !ok2(delR) {
+			for _, v := range acked {
+				g := cl[1].GetObjectV(b, "dir/obj", v[0])
+				if !g.OK() || string(g.Body) != v[1] {
+					det["lost_version"] = v[0]
+					det["get_version"] = g.String()
+					c.Violation(base+":acknowledged-version-lost-although-delete-failed", "D/"+id, det)
+					break
+				}
+			}
 		}
 		if upName == "PutObject" || upName == "CompleteMultipartUpload" {
 			if ok2(upR) {
@@ -652,7 +697,7 @@ func laneDelete(c *ev.Ctx, noOTmp bool) {
 		}
 	}
 	// converse: P = upload held at each of its points, O = DeleteBucket
-	for _, up := range uploads[:2] {
+	for _, up := range uploads[1:3] {
 		bt, ok := mkBucket()
 		if !ok {
 			return
@@ -822,7 +867,8 @@ func Run(c *ev.Ctx) int {
 	for _, no := range []bool{false, true} {
 		no := no
 		if c.Want("D") {
-			run(func() { laneDelete(c, no) })
+			run(func() { laneDelete(c, no, false) })
+			run(func() { laneDelete(c, no, true) })
 		}
 	}
 	wg.Wait()
